@@ -27,6 +27,11 @@ type fqFacts struct {
 	HeadEmptyReturns    string      `json:"headEmptyReturns"`
 	HeadPositive        bool        `json:"headPositive"`
 	StateFromTick       bool        `json:"stateFromTick"`
+	SizeGuard           string      `json:"sizeGuard"`
+	StateFromArm        bool        `json:"stateFromArm"`
+	HeadErrFlag         string      `json:"headErrFlag"`
+	HeadEmptyFlag       string      `json:"headEmptyFlag"`
+	HeadOkFlag          string      `json:"headOkFlag"`
 	ExecReturnsFetchErr bool        `json:"execReturnsFetchErr"`
 	PopErrReturned      bool        `json:"popErrReturned"`
 	PopEmptyReturned    bool        `json:"popEmptyReturned"`
@@ -51,6 +56,58 @@ func fqDur(e ast.Expr) string {
 		return "time.Until(retryAt)"
 	}
 	return "?" + wkExpr(e)
+}
+
+// fqIsRetryAtAssign matches `retryAt = time.Now().Add(sched.opts.RetryInterval)`.
+func fqIsRetryAtAssign(st ast.Stmt) bool {
+	as, ok := st.(*ast.AssignStmt)
+	return ok && as.Tok == token.ASSIGN && len(as.Lhs) == 1 && len(as.Rhs) == 1 && fqIsIdent(as.Lhs[0], "retryAt") &&
+		noSpaceFq(wkExpr(as.Rhs[0])) == "time.Now().Add(sched.opts.RetryInterval)"
+}
+
+// fqZeroVar: is st `var <name> <type>` without a value?
+func fqZeroVar(st ast.Stmt, name string) bool {
+	ds, ok := st.(*ast.DeclStmt)
+	if !ok {
+		return false
+	}
+	gd, ok := ds.Decl.(*ast.GenDecl)
+	if !ok || gd.Tok != token.VAR || len(gd.Specs) != 1 {
+		return false
+	}
+	vs := gd.Specs[0].(*ast.ValueSpec)
+	return len(vs.Names) == 1 && vs.Names[0].Name == name && len(vs.Values) == 0
+}
+
+// fqSizeGuard classifies how the statements of the loop body before the switch obtain queueSize / err:
+//
+//	"unguarded"  queueSize, err := sched.queue.Size()                                   (every iteration asks the queue)
+//	"guarded"    var queueSize int; var err error; backingOff := time.Now().Before(retryAt);
+//	             if !backingOff { queueSize, err = sched.queue.Size() }                 (no call while backing off)
+func fqSizeGuard(pre []ast.Stmt) string {
+	isSize := func(st ast.Stmt, tok token.Token) bool {
+		as, ok := st.(*ast.AssignStmt)
+		if !ok || as.Tok != tok || len(as.Lhs) != 2 || len(as.Rhs) != 1 {
+			return false
+		}
+		_, ok = wkCall(as.Rhs[0], "sched", "queue", "Size")
+		return ok && fqIsIdent(as.Lhs[0], "queueSize") && fqIsIdent(as.Lhs[1], "err")
+	}
+	if len(pre) == 1 && isSize(pre[0], token.DEFINE) {
+		return "unguarded"
+	}
+	if len(pre) == 4 && fqZeroVar(pre[0], "queueSize") && fqZeroVar(pre[1], "err") {
+		as, ok := pre[2].(*ast.AssignStmt)
+		is, ok2 := pre[3].(*ast.IfStmt)
+		if ok && ok2 && as.Tok == token.DEFINE && len(as.Lhs) == 1 && len(as.Rhs) == 1 && fqIsIdent(as.Lhs[0], "backingOff") &&
+			noSpaceFq(wkExpr(as.Rhs[0])) == "time.Now().Before(retryAt)" && is.Init == nil && is.Else == nil && len(is.Body.List) == 1 &&
+			isSize(is.Body.List[0], token.ASSIGN) {
+			if u, ok := is.Cond.(*ast.UnaryExpr); ok && u.Op == token.NOT && fqIsIdent(u.X, "backingOff") {
+				return "guarded"
+			}
+		}
+	}
+	return "?"
 }
 
 func fqIsIdent(e ast.Expr, name string) bool {
@@ -238,19 +295,17 @@ func extractFaults(repo string, fx *Facts) {
 				if !ok || sw.Tag != nil || sw.Init != nil {
 					continue
 				}
-				// err / queueSize of the conditions come from the Size() call just before
-				sizeOK := false
-				if k > 0 {
-					if as, ok := loop.Body.List[k-1].(*ast.AssignStmt); ok && len(as.Lhs) == 2 && len(as.Rhs) == 1 {
-						if _, ok := wkCall(as.Rhs[0], "sched", "queue", "Size"); ok && fqIsIdent(as.Lhs[0], "queueSize") && fqIsIdent(as.Lhs[1], "err") {
-							sizeOK = true
-						}
-					}
+				// err / queueSize / backingOff of the conditions come from the statements just before: the Size() call, guarded
+				// by the back-off test or not; nothing else in the loop calls Size() or assigns these variables
+				ff.SizeGuard = fqSizeGuard(loop.Body.List[:k])
+				if len(wkCalls(loop, "sched", "queue", "Size")) != 1 || fqAssignCount(loop, "queueSize") != 1 || fqAssignCount(loop, "backingOff") > 1 {
+					ff.SizeGuard = "?"
 				}
-				if !sizeOK {
+				if ff.SizeGuard == "?" {
 					fx.miss("faults.sizeBeforeSwitch")
 				}
 				fx.Where["faults.loopSwitch"] = p.pos(sw)
+				armStateCases := 0
 				for _, c := range sw.Body.List {
 					cc := c.(*ast.CaseClause)
 					cond := "default"
@@ -263,14 +318,50 @@ func extractFaults(repo string, fx *Facts) {
 					}
 					arm := "?none"
 					n := 0
+					// `nextTick, headErr := sched.calculateNextTick()` as a statement of the case: the local stands for the call
+					tickVar, tickErrVar := "", ""
+					for _, b := range cc.Body {
+						if as, ok := b.(*ast.AssignStmt); ok && as.Tok == token.DEFINE && len(as.Lhs) == 2 && len(as.Rhs) == 1 {
+							if c, ok := as.Rhs[0].(*ast.CallExpr); ok && wkSel(c.Fun, "sched", "calculateNextTick") && len(c.Args) == 0 {
+								if a, ok := as.Lhs[0].(*ast.Ident); ok {
+									if e, ok := as.Lhs[1].(*ast.Ident); ok {
+										tickVar, tickErrVar = a.Name, e.Name
+									}
+								}
+							}
+						}
+					}
 					for _, b := range cc.Body {
 						ast.Inspect(b, func(x ast.Node) bool {
 							if call, ok := x.(*ast.CallExpr); ok && wkSel(call.Fun, "timer", "Reset") && len(call.Args) == 1 {
 								arm = fqDur(call.Args[0])
+								if tickVar != "" && fqIsIdent(call.Args[0], tickVar) && fqAssignCount(cc, tickVar) == 1 {
+									arm = "calculateNextTick"
+								}
 								n++
 							}
 							return true
 						})
+					}
+					// does the case set the back-off deadline? `case err != nil:` unconditionally (a statement of the case body),
+					// the default case `if headErr != nil { retryAt = … }` right after the calculateNextTick() statement
+					switch {
+					case cond == "err != nil":
+						for _, b := range cc.Body {
+							if fqIsRetryAtAssign(b) {
+								armStateCases++
+								fx.Where["faults.stateFromArm.size"] = p.pos(b)
+							}
+						}
+					case cond == "default" && tickErrVar != "":
+						for _, b := range cc.Body {
+							if is, ok := b.(*ast.IfStmt); ok && is.Init == nil && is.Else == nil && len(is.Body.List) == 1 && fqIsRetryAtAssign(is.Body.List[0]) {
+								if be, ok := is.Cond.(*ast.BinaryExpr); ok && be.Op == token.NEQ && fqIsIdent(be.X, tickErrVar) && fqIsIdent(be.Y, "nil") {
+									armStateCases += 10
+									fx.Where["faults.stateFromArm.head"] = p.pos(is)
+								}
+							}
+						}
 					}
 					if n != 1 {
 						arm = fmt.Sprintf("?%d timer.Reset calls", n)
@@ -287,6 +378,8 @@ func extractFaults(repo string, fx *Facts) {
 					}
 					ff.LoopCases = append(ff.LoopCases, [2]string{cond, arm})
 				}
+				// both places, once each, and — checked below — no other assignment to retryAt besides the tick's
+				ff.StateFromArm = armStateCases == 11
 			}
 			// the timer case sets the back-off state from the error of executeAndReschedule, and nothing else does:
 			//   if err := sched.executeAndReschedule(ctx); err != nil { retryAt = time.Now().Add(sched.opts.RetryInterval) }
@@ -339,7 +432,14 @@ func extractFaults(repo string, fx *Facts) {
 				}
 				return true
 			})
-			if stateVar != "" && fqAssignCount(fd.Body, stateVar) == 1 {
+			nAssign := 1
+			if ff.StateFromArm {
+				nAssign = 3
+			}
+			if fqAssignCount(fd.Body, "retryAt") != nAssign {
+				ff.StateFromArm = false
+			}
+			if stateVar != "" && fqAssignCount(fd.Body, stateVar) == nAssign {
 				// declared without a value: `var retryAt time.Time` / `var failed bool`
 				for _, st := range fd.Body.List {
 					if ds, ok := st.(*ast.DeclStmt); ok {
@@ -379,16 +479,22 @@ func extractFaults(repo string, fx *Facts) {
 		if len(heads) == 1 {
 			if eb := fqErrBlock(fd.Body, heads[0]); eb != nil {
 				fx.Where["faults.calculateNextTick"] = p.pos(eb)
-				if r := fqLastReturn(eb.Body.List); r != nil && len(r.Results) == 1 {
+				if r := fqLastReturn(eb.Body.List); r != nil && (len(r.Results) == 1 || len(r.Results) == 2) {
 					ff.HeadErrReturns = fqDur(r.Results[0])
+					if len(r.Results) == 2 && fqAssignCount(eb.Body, "err") == 0 {
+						ff.HeadErrFlag = wkExpr(r.Results[1])
+					}
 				}
 				for _, st := range eb.Body.List {
 					is, ok := st.(*ast.IfStmt)
 					if !ok || is.Init != nil || !fqIsErrorsIsEmpty(is.Cond) {
 						continue
 					}
-					if r := fqLastReturn(is.Body.List); r != nil && len(r.Results) == 1 {
+					if r := fqLastReturn(is.Body.List); r != nil && (len(r.Results) == 1 || len(r.Results) == 2) {
 						ff.HeadEmptyReturns = fqDur(r.Results[0])
+						if len(r.Results) == 2 {
+							ff.HeadEmptyFlag = wkExpr(r.Results[1])
+						}
 						if fqIsIdent(r.Results[0], "nextTickDuration") && zeroVar {
 							// not assigned before this return
 							assignedBefore := false
@@ -423,6 +529,7 @@ func extractFaults(repo string, fx *Facts) {
 					})
 					if exits == 1 && fqLastReturn(eb.Body.List) != nil {
 						ff.HeadEmptyReturns = ff.HeadErrReturns
+						ff.HeadEmptyFlag = ff.HeadErrFlag
 					}
 				}
 			}
@@ -455,8 +562,23 @@ func extractFaults(repo string, fx *Facts) {
 			}
 		}
 		fr := fqLastReturn(fd.Body.List)
-		ff.HeadPositive = zeroVar && sawRun && sawNow && sawIf && fr != nil && len(fr.Results) == 1 && fqIsIdent(fr.Results[0], "nextTickDuration") &&
+		ff.HeadPositive = zeroVar && sawRun && sawNow && sawIf && fr != nil && (len(fr.Results) == 1 || len(fr.Results) == 2) && fqIsIdent(fr.Results[0], "nextTickDuration") &&
 			fqAssignCount(fd.Body, "nextTickDuration") == 1
+		if fr != nil && len(fr.Results) == 2 {
+			ff.HeadOkFlag = wkExpr(fr.Results[1])
+		}
+		// the error result is `err` of the Head() call where it failed with an error other than ErrQueueEmpty, `nil` everywhere else;
+		// there is no return besides these three
+		nret := 0
+		ast.Inspect(fd.Body, func(n ast.Node) bool {
+			if _, ok := n.(*ast.ReturnStmt); ok {
+				nret++
+			}
+			return true
+		})
+		if !(ff.HeadErrFlag == "err" && ff.HeadEmptyFlag == "nil" && ff.HeadOkFlag == "nil" && nret == 3 && fqAssignCount(fd.Body, "err") == 1) {
+			ff.StateFromArm = false
+		}
 	}
 	if ff.HeadErrReturns == "?" {
 		fx.miss("faults.calculateNextTick")
@@ -686,7 +808,9 @@ func renderFaults(fx *Facts) string {
 	fmt.Fprintf(&b, "/-- the `switch` of `startExecutionLoop`: (case condition, argument of `timer.Reset`) in source order -/\ndef loopCases : List (String × String) := [%s]\n", strings.Join(cs, ", "))
 	b.WriteString("/-- `calculateNextTick`: result when `Head()` fails / returns `ErrQueueEmpty`; the success path is\n    `if nextRunTime > now { d = nextRunTime - now }` on a zero-initialised `d` -/\n")
 	fmt.Fprintf(&b, "def headErrReturns : String := %s\ndef headEmptyReturns : String := %s\ndef headPositive : Bool := %s\n", leanStr(ff.HeadErrReturns), leanStr(ff.HeadEmptyReturns), wkBool(ff.HeadPositive))
-	fmt.Fprintf(&b, "/-- the timer case sets the back-off state (`retryAt = time.Now().Add(sched.opts.RetryInterval)` when\n    `executeAndReschedule` returns an error); it is the only assignment to that zero-initialised variable -/\ndef stateFromTick : Bool := %s\n", wkBool(ff.StateFromTick))
+	fmt.Fprintf(&b, "/-- the timer case sets the back-off state (`retryAt = time.Now().Add(sched.opts.RetryInterval)` when\n    `executeAndReschedule` returns an error); besides the two assignments of `stateFromArm` (if that is true) it is the only\n    assignment to that zero-initialised variable -/\ndef stateFromTick : Bool := %s\n", wkBool(ff.StateFromTick))
+	fmt.Fprintf(&b, "/-- how the loop obtains `queueSize, err` before the `switch`: \"unguarded\" = `queueSize, err := sched.queue.Size()` in every\n    iteration; \"guarded\" = zero-initialised, `backingOff := time.Now().Before(retryAt)`, `if !backingOff { queueSize, err = sched.queue.Size() }`\n    (the only `Size()` call and the only assignments of the loop) -/\ndef sizeGuard : String := %s\n", leanStr(ff.SizeGuard))
+	fmt.Fprintf(&b, "/-- a failing `Size()` / `Head()` sets the back-off deadline: `retryAt = time.Now().Add(sched.opts.RetryInterval)` is a statement of\n    `case err != nil:`, and of `if headErr != nil { … }` after `nextTick, headErr := sched.calculateNextTick()` in the default case;\n    `calculateNextTick` returns `err` of `Head()` where it failed with an error other than `ErrQueueEmpty` and `nil` in its two other\n    returns; with the tick's these are the only assignments to `retryAt` -/\ndef stateFromArm : Bool := %s\n", wkBool(ff.StateFromArm))
 	fmt.Fprintf(&b, "/-- every `return` of `executeAndReschedule` returns the error of `fetchAndReschedule` -/\ndef execReturnsFetchErr : Bool := %s\n", wkBool(ff.ExecReturnsFetchErr))
 	fmt.Fprintf(&b, "/-- `fetchAndReschedule`: the `Pop()` error is returned; so is an `ErrQueueEmpty` from `Pop()`; … unless\n    `sched.queue.Size()`, asked in that branch, answers 0 without error (then `nil`); the `Push()` error is returned -/\ndef popErrReturned : Bool := %s\ndef popEmptyReturned : Bool := %s\ndef popEmptyUnlessSizeZero : Bool := %s\ndef pushErrReturned : Bool := %s\n", wkBool(ff.PopErrReturned), wkBool(ff.PopEmptyReturned), wkBool(ff.PopEmptyUnlessZero), wkBool(ff.PushErrReturned))
 	fmt.Fprintf(&b, "/-- every dispatch in `executeAndReschedule` is inside `if valid { … }`, `valid` coming from `validateJob` of the popped job -/\ndef dispatchOnlyIfValid : Bool := %s\n", wkBool(ff.DispatchOnlyIfValid))
